@@ -20,10 +20,15 @@ u = 1 -/+ x, v = +/- sqrt(a^2 + (x -/+ r)^2).  A first-order forward analysis gi
 
 and the five terms are then scaled and summed (3 eps per product/sum).  The bound is
 evaluated in mpmath *for that very point*, so the ill-conditioning of the closed form for
-small a (y -> 1+: observed relative errors of the real map up to 1e-6) is allowed for
-exactly where it occurs and nowhere else.  Calibration (unchanged tree, 2 000 grids,
-1e5 points): observed error / bound in [0.05, 0.40], so the safety factor K_MAP = 4
-leaves a margin of 10 while a wrong factor in any term exceeds the bound by >= 1e3.
+small a (y -> 1+: observed errors of the real map up to 5e-5 of max(|z-centre|, L) at grid
+points and 2.5e-3 at probe points, inside the quantified domain) is allowed for
+exactly where it occurs and nowhere else.  Calibration (unchanged tree and tree with the
+two proposed fixes; quick seeds 0-4 = 2 100 grids, thorough seeds 0-1 = 10 000 grids,
+2.1e6 position points): observed error / bound <= 0.50 for the map, <= 0.28 for the
+Jacobian, <= 0.50 for the quadrature relation, and the maxima do not grow from the quick
+to the thorough sample.  The safety factors K_MAP = K_JAC = 4 therefore leave a margin of
+8, while every mutant tried (wrong factor, sign, argument in any term) exceeds the bound
+by a factor 1e3 ... 1e14.
 """
 from __future__ import annotations
 
